@@ -19,6 +19,16 @@ pub struct C03;
 /// Directed dense sections: more items than fit a u16 counter (200 000 zero bytes are 66 666
 /// empty TLVs; the second form alternates types).
 fn dense_section(kind: u64) -> Vec<u8> {
+    if kind == 2 {
+        // a full-size accepted header whose TLV area is 21 841 empty NoOp TLVs
+        let mut v = crate::wire::V2_SIG.to_vec();
+        v.extend_from_slice(&[0x21, 0x11, 0xff, 0xff]);
+        v.extend_from_slice(&[127, 0, 0, 1, 127, 0, 0, 2, 0, 80, 1, 187]);
+        while v.len() + 3 <= 16 + 65535 {
+            v.extend_from_slice(&[0x04, 0, 0]);
+        }
+        return v;
+    }
     let mut v = vec![0u8; 200_001];
     if kind == 1 {
         for (i, b) in v.iter_mut().enumerate() {
@@ -103,10 +113,18 @@ fn walk_tlvs(it: v2::TypeLengthValues<'_>) -> Result<usize, usize> {
         let _ = fresh.step_by(k + 1).take(4).count();
     }
     let _ = fresh.size_hint();
-    if n <= 2048 || n == 200_001 {
+    let dense = n >= 6 && it.as_bytes()[1..3] == [0, 0] && it.as_bytes()[4..6] == [0, 0];
+    if n <= 2048 || dense {
+        // called on the iterator itself, not through an adaptor, so that an override of these
+        // methods is what runs (a non-terminating one is the watchdog's business)
+        let _ = fresh.count();
+        let _ = fresh.last();
+        let _ = fresh.fold(0usize, |a, x| a + x.map(|t| t.len()).unwrap_or(0));
         let _ = fresh.take(bound + 2).count();
-        let _ = fresh.take(bound + 2).last();
-        let _ = fresh.take(bound + 2).fold(0usize, |a, x| a + x.map(|t| t.len()).unwrap_or(0));
+        let mut half = fresh;
+        let _ = half.nth(3);
+        let _ = half.count();
+        let _ = half.last();
     }
     let _ = it.nth(1);
     let _ = it.len();
@@ -260,7 +278,7 @@ impl Check for C03 {
             sc.events = transport::every_cut(s.len(), s.len());
             return sc;
         }
-        if (index as usize) < DIRECTED.len() + 2 {
+        if (index as usize) < DIRECTED.len() + 3 {
             sc.sub = "directed_dense_section".into();
             sc.stream = dense_section(index - DIRECTED.len() as u64);
             sc.entry = Entry::V2;
